@@ -175,7 +175,7 @@ def w_surface(case):
             slots = case['slots']
             path = os.path.join(d, 'img.mmb')
             with open(path, 'wb') as f:
-                f.write(disc.mmb_header({s: 0x0F for s in slots}))
+                f.write(disc.mmb_header({s: (0x0F if s == which else case.get('nstat', 0x0F)) for s in slots}))
                 for s in slots:
                     f.seek(8192 + s * 204800)
                     f.write(surf(0x41 + slots.index(s), (st, ln) if s == which else None))
@@ -209,7 +209,7 @@ def w_surface(case):
                     bump(res, 'sector-map-within-surface')
             except render.ParseError:
                 pass
-        res['nt'].append((cont, nt, spt, which, st, ln))
+        res['nt'].append((cont, nt, spt, which, st, ln, case.get('nstat')))
         if res['viol']:
             res['case'] = case
     except Exception:
@@ -258,6 +258,13 @@ def fam_mmb(tier):
         neigh = sorted(set(x for x in (s - 1, s, s + 1) if 0 <= x <= 510))
         for (st, ln, crossing) in window(800, 2):
             yield {'w': 'surface', 'container': 'mmb', 'ntracks': 80, 'spt': 10, 'which': s, 'slots': neigh, 'entry': [st, ln, crossing]}
+    # neighbours that hold a complete disc but whose status byte says read-only / unformatted / invalid / unknown:
+    # the slot read must still be its own 200K region
+    for s in ([1, 2, 510] if tier == 'quick' else [1, 2, 3, 255, 256, 509, 510]):
+        neigh = sorted(set(x for x in (s - 2, s - 1, s, s + 1) if 0 <= x <= 510))
+        for nstat in (0x00, 0xF0, 0xFF, 0x55):
+            for (st, ln, crossing) in window(800, 2):
+                yield {'w': 'surface', 'container': 'mmb', 'ntracks': 80, 'spt': 10, 'which': s, 'slots': neigh, 'entry': [st, ln, crossing], 'nstat': nstat}
 
 
 FAMILIES = [('O-opus-volume-boundaries', fam_opus), ('S-side-boundaries', fam_sides), ('M-mmb-slot-boundaries', fam_mmb)]
